@@ -844,13 +844,17 @@ where
             reusable: bool,
             hasher: &dyn Fn(&ValueKey) -> u64,
         ) {
+            // Insert into the key map before linking the value into the LRU. Growing the map
+            // rehashes its entries, which invokes user hashing: if that panics, the value must not
+            // be left in the LRU without a key map entry, or a later attempt to reuse its slot
+            // would fail to find it.
+            insert_unique_erased(shard, hash, value_key, hasher);
+
             if reusable {
                 // SAFETY: The caller guarantees that `entry` points to a live `LruEntry` and was
                 // derived from its enclosing value.
                 unsafe { shard.lru.push_front(UnsafeRef::from_raw(entry)) };
             }
-
-            insert_unique_erased(shard, hash, value_key, hasher);
 
             debug_assert_eq!(hash, hasher(&value_key));
         }
